@@ -88,8 +88,8 @@ func runProduce(c *Case) *Line {
 		l.In = []RecIn{}
 	}
 	net, cl, _ := newCluster(c.PV, 0)
-	var cap capture
-	cap.install(cl)
+	var capt capture
+	capt.install(cl)
 
 	type kv struct{ k, v []byte }
 	var mats []kv
@@ -117,7 +117,7 @@ func runProduce(c *Case) *Line {
 	}
 	_ = mats
 
-	ctx, cancel := context.WithTimeout(context.Background(), 20*time.Second)
+	ctx, cancel := context.WithTimeout(context.Background(), c.wait(20*time.Second))
 	defer cancel()
 	before := time.Now()
 	var err error
@@ -131,7 +131,7 @@ func runProduce(c *Case) *Line {
 		case "client":
 			tr := &kafka.Transport{Dial: net.DialContext}
 			defer tr.CloseIdleConnections()
-			client := &kafka.Client{Addr: kafka.TCP("b1:9092"), Transport: tr, Timeout: 10 * time.Second}
+			client := &kafka.Client{Addr: kafka.TCP("b1:9092"), Transport: tr, Timeout: c.wait(4 * time.Second)}
 			var res *kafka.ProduceResponse
 			res, err = client.Produce(ctx, &kafka.ProduceRequest{Topic: topic, Partition: 0, RequiredAcks: kafka.RequireAll,
 				Compression: kafka.Compression(c.Codec), Records: kafka.NewRecordReader(recs...)})
@@ -147,7 +147,7 @@ func runProduce(c *Case) *Line {
 			}
 			w := &kafka.Writer{Addr: kafka.TCP("b1:9092"), Topic: topic, Transport: tr, Compression: kafka.Compression(c.Codec),
 				BatchSize: bs, BatchBytes: 64 << 20, BatchTimeout: 5 * time.Millisecond, RequiredAcks: kafka.RequireAll,
-				Balancer: &kafka.RoundRobin{}, MaxAttempts: 1, WriteTimeout: 10 * time.Second, ReadTimeout: 10 * time.Second}
+				Balancer: &kafka.RoundRobin{}, MaxAttempts: 1, WriteTimeout: c.wait(4 * time.Second), ReadTimeout: c.wait(4 * time.Second)}
 			err = w.WriteMessages(ctx, msgs...)
 			if cerr := w.Close(); err == nil {
 				err = cerr
@@ -160,7 +160,7 @@ func runProduce(c *Case) *Line {
 			}
 			conn := kafka.NewConnWith(nc, kafka.ConnConfig{ClientID: "vh", Topic: topic, Partition: 0})
 			defer conn.Close()
-			conn.SetDeadline(time.Now().Add(10 * time.Second))
+			conn.SetDeadline(time.Now().Add(c.wait(4 * time.Second)))
 			_, err = conn.WriteCompressedMessages(kafka.Compression(c.Codec).Codec(), msgs...)
 		default:
 			err = fmt.Errorf("unknown produce path %q", c.Path)
@@ -171,9 +171,9 @@ func runProduce(c *Case) *Line {
 	l.Err = errText(err)
 	l.Win = [2]Limb{relTs(before.UnixMilli(), c.T0), relTs(after.UnixMilli(), c.T0)}
 
-	cap.mu.Lock()
-	sets := cap.sets
-	cap.mu.Unlock()
+	capt.mu.Lock()
+	sets := capt.sets
+	capt.mu.Unlock()
 	l.Wire = describeSets(sets, c)
 	return l
 }
